@@ -207,3 +207,43 @@ func vpH_C12_T_terms_inflight() {
 		vpAssert("C12.reset-on-term", s.e.IsLeader() && s.cb.demotes == d0)
 	}
 }
+
+// vpH_C12_T_quick_reelection: the leader (threshold 2) is preempted, the preemptor leaves 100 ms later and the
+// instance is re-elected inside the same heartbeat interval; from then on the checker reports unhealthy at
+// every tick. The new term is demoted at its second consecutive unhealthy heartbeat tick — not earlier: one
+// health check per heartbeat interval, whatever is left over from the previous term.
+func vpH_C12_T_quick_reelection() {
+	H := time.Second
+	vpSetOpt("rand-fixed", 1)
+	hc := &vpHealth{forceHealthy: true}
+	s := vpFollowingInstance(H, func(cfg *ElectionConfig) {
+		cfg.HealthChecker = hc
+		cfg.MaxConsecutiveFailures = 2
+	})
+	time.Sleep(450 * time.Millisecond)
+	s.st.write("env:other", "delete", nil, true, 0)
+	time.Sleep(200 * time.Millisecond)
+	vpQuiesce()
+	if !s.e.IsLeader() {
+		vpEndPath("not-elected")
+	}
+	vpDelay("preempt", 100*time.Millisecond, 700*time.Millisecond)
+	s.st.write("env:hi", "update", vpRecMk("hi", "tok-hi", 9), false, s.st.lastSeq)
+	time.Sleep(100 * time.Millisecond)
+	s.st.write("env:hi", "delete", nil, true, 0)
+	time.Sleep(150 * time.Millisecond)
+	vpQuiesce()
+	if !s.e.IsLeader() || s.cb.promotes != 2 {
+		vpEndPath("not-re-elected")
+	}
+	t2 := s.cb.promoteAt
+	d0 := s.cb.demotes
+	hc.forceHealthy = false
+	hc.forceUnhealthy = true
+	time.Sleep(3 * H)
+	vpQuiesce()
+	vpCover("C12.quick-reelection")
+	vpAssert("C12.exactly-at-n", s.cb.demotes == d0+1 && !s.e.IsLeader())
+	vpAssert("C12.never-before-n", vpImplies(s.cb.demotes == d0+1, s.cb.demoteAt >= t2+int64(2*H)))
+	_ = s.e.Stop()
+}
